@@ -17,7 +17,8 @@ def run(ctx):
                 "length class, pattern class); non-trivial = the call returned a sequence")
     T = ctx.thorough
     jobs = [dict(module="PPMModel", cfg=cfg("Init", [2, 4, 8, 16], 12, 0), note="all bit strings <= 12, clean channel"),
-            dict(module="PPMModel", cfg=cfg("Init", [2, 4, 8], 8, 8 if not T else 8), note="all corruptions of <= 8 slots"),
+            dict(module="PPMModel", cfg=cfg("Init", [2, 4, 8], 8, 8 if not T else 8), note="all corruptions of <= 8 slots",
+                 actions=["DoEncode", "DoChannel", "DoHdd", "DoDecode"]),
             dict(module="PPMModel", cfg=cfg("HddInit", [2, 4, 8], 0, 16 if T else 12), note="every slot pattern, every HDD outcome",
                  timeout=3000)]
     ctx.tlc_many(jobs, parallel=2)
